@@ -111,6 +111,29 @@ def key(ctx):
                     out.append(Inst("KEY", "%s:shift-width:%s<<%d:%s" % (nm_, "id" if is_id else "tag", sh, ty), ok_w, "%s:%d" % (b_.fn["file"], st["line"]),
                                     "%s << %d is computed in %s (%d bits), needs %d bits" % ("identifier" if is_id else "tag", sh, ty, width, need),
                                     "the shifted value is not truncated (key stays injective)"))
+    # no narrowing integer cast anywhere in the key computation (closures included): `id as u8 as usize` keeps the
+    # shift in a wide type and still loses identifier bits
+    W = {"u8": 8, "i8": 8, "u16": 16, "i16": 16, "u32": 32, "i32": 32, "u64": 64, "i64": 64, "usize": 64, "isize": 64, "u128": 128, "i128": 128}
+    for b0, nm_ in ((tb, "tx"), (rb, "rx")):
+        bodies = [b0] + [ctx.world.body(c) for c in ctx.facts.children.get(b0.path, [])]
+        narrowing = []
+        ncast = 0
+        for b_ in bodies:
+            for i in sorted(b_.reach):
+                for st in b_.blocks[i]["stmts"]:
+                    if st["k"] != "assign" or st["rv"]["k"] != "cast" or st["rv"].get("kind") != "IntToInt":
+                        continue
+                    op = st["rv"]["op"]
+                    src = op.get("ty") if op["k"] == "const" else (b_.locals[op["pl"]["l"]]["ty"] if not op["pl"]["p"] else None)
+                    if op["k"] == "const" and op.get("uneval"):
+                        src = src or "u8"
+                    ncast += 1
+                    ws, wd = W.get(src), W.get(st["rv"]["ty"])
+                    if ws is None or wd is None or wd < ws:
+                        narrowing.append("%s:%d %s as %s" % (b_.fn["file"], st["line"], src, st["rv"]["ty"]))
+        out.append(Inst("KEY", "%s:no-narrowing-cast" % nm_, not narrowing and ncast > 0, "%s:%d" % (b0.fn["file"], b0.fn["line"]),
+                        "%d integer casts in the key computation, narrowing: %s" % (ncast, narrowing or "none"),
+                        "identifier and tag reach the key with all their bits"))
     # distinct tags on the rx side
     tags = {}
     for (v, q), e in rx.items():
